@@ -23,7 +23,7 @@ import tempfile
 import time
 
 from vlib import aslrun, codefile, tlc
-from vlib.common import CheckError, NCPU, Phase, log, scratch
+from vlib.common import CheckError, NCPU, Phase, log, rng, scratch
 
 EVENTS = "file,stmt,emit,sym,diag,line"
 LIM = 2 ** 30
@@ -48,7 +48,8 @@ DEFINITE = {"SkippedIsInert": "a statement in a branch that is not selected had 
             "RecordedIsInert": "a line stored into a macro / REPT body was assembled while being stored",
             "LabelValueIsExec": "a label did not get the current program counter",
             "LastPassImageEqualsFile": "the code file is not the byte stream emitted in the last pass",
-            "DeliveredAsRecorded": "a REPT / WHILE body line was delivered differently from how it was written"}
+            "DeliveredAsRecorded": "a REPT / WHILE body line was delivered differently from how it was written",
+            "ExitmRestoresEntryDepth": "EXITM did not reset the IF/SWITCH stack to its state before the expansion"}
 
 
 # ----------------------------------------------------------------------------------------------------------------
@@ -248,40 +249,50 @@ def _corpus_job(args):
 
 
 def _program_job(args):
-    (bdir, hooks, flavour, idx, src, outdir) = args
+    """a chunk of generated programs -> ONE ndjson fragment file (RESET between the executions) + what was observed
+    from outside (status, error / warning totals of the file_end record, the code file's data in file order)"""
+    (bdir, hooks, flavour, chunk, outdir) = args
     from vlib.build import Build
     b = Build(bdir, flavour, hooks)
-    res = aslrun.assemble(b, {"a.asm": src}, opts=["-q"], events=EVENTS)
-    if res.trace is None:
-        return {"name": "gen#%d" % idx, "skip": "no trace", "rc": res.rc}
-    ev, info = regroup(res.trace, res.rc, res.p)
-    if ev is None:
-        return {"name": "gen#%d" % idx, "skip": info, "rc": res.rc}
-    path = os.path.join(outdir, "gen%d.ndjson" % idx)
-    with open(path, "w") as f:
-        f.write(_dump(ev))
-    return {"name": "gen#%d" % idx, "path": path, "n": len(ev), "classes": info, "rc": res.rc, "src": src,
-            "stmts": sum(1 for e in ev if e["a"] == "S")}
+    out = []
+    for (idx, src) in chunk:
+        res = aslrun.assemble(b, {"a.asm": src}, opts=["-q", "-cpu", "z80"], events=EVENTS)
+        o = {"idx": idx, "rc": res.rc, "sig": res.sig, "timeout": res.timeout, "errs": None, "warns": None,
+             "image": None, "events": None}
+        for e in res.trace or ():
+            if e.get("e") == "file_end":
+                o["errs"], o["warns"] = e["errs"], e["warns"]
+        if res.p is not None:
+            pr = codefile.parse(res.p)
+            o["image"] = [[r.start + i, x] for r in pr.data_records() for i, x in enumerate(r.data)]
+        if res.trace is not None:
+            ev, info = regroup(res.trace, res.rc, res.p)
+            if ev is not None:
+                o["events"] = _dump(ev)
+                o["n"] = len(ev)
+        out.append(o)
+    return out
 
 
 # ----------------------------------------------------------------------------------------------------------------
 # TLC side
 # ----------------------------------------------------------------------------------------------------------------
-_CFG = ("CONSTANTS Segs = {0,1,2,3,4,5,6,7,8,9,10} StructSeg = 11 Off = %s\nINIT TInit\nNEXT TNext\n"
-        "POSTCONDITION Accepted\nCHECK_DEADLOCK FALSE\n")
+_CFG = ("CONSTANTS Segs = {0,1,2,3,4,5,6,7,8,9,10} StructSeg = 11 OffSet = %s OffAt = %d\n"
+        "INIT TInit\nNEXT TNext\nPOSTCONDITION Accepted\nCHECK_DEADLOCK FALSE\n")
 
 
-def _cfg(off=()):
-    """production: the static AsCore_Trace.cfg (Off = {}); diagnosis: a temporary cfg with one claim off"""
+def _cfg(off=(), at=0):
+    """production: the static AsCore_Trace.cfg (Off = {}); diagnosis: a temporary cfg with the claims `off` switched
+    off at event number `at` of the trace file (and nowhere else)"""
     if not off:
         return "AsCore_Trace.cfg", None
     fd, path = tempfile.mkstemp(prefix="_ascore_", suffix=".cfg", dir=tlc.SPEC)
     with os.fdopen(fd, "w") as f:
-        f.write(_CFG % ("{" + ", ".join('"%s"' % c for c in off) + "}"))
+        f.write(_CFG % ("{" + ", ".join('"%s"' % c for c in off) + "}", at))
     return os.path.basename(path), path
 
 
-def _validate(frags, off=(), mem="5g", timeout=900):
+def _validate(frags, off=(), at=0, mem="5g", timeout=1500):
     """frags: list of result dicts with path/n.  One TLC run over the concatenation (RESET between executions).
     -> dict(accepted, fail (index into frags), fail_index, fail_event, states, generated, wall, events)"""
     import re
@@ -292,10 +303,13 @@ def _validate(frags, off=(), mem="5g", timeout=900):
         for fi, fr in enumerate(frags):
             out.write('{"a":"RESET"}\n')
             owner.append((fi, -1))
-            with open(fr["path"]) as f:
-                out.write(f.read())
+            if "text" in fr:
+                out.write(fr["text"])
+            else:
+                with open(fr["path"]) as f:
+                    out.write(f.read())
             owner += [(fi, i) for i in range(fr["n"])]
-    cfgname, cfgpath = _cfg(off)
+    cfgname, cfgpath = _cfg(off, at)
     try:
         r = tlc.run("AsCore_Trace", cfgname, workers=1, env={"TRACE": path}, mem=mem, timeout=timeout, collect=False,
                     keep_out=True)
@@ -330,9 +344,10 @@ def _validate(frags, off=(), mem="5g", timeout=900):
 
 
 def _diagnose(frag, fail_index):
-    """which claim rejects?  Re-validate the single execution with one claim off; TLC decides."""
+    """which claim rejects?  Re-validate the single execution with one claim switched off AT THE REJECTED EVENT
+    (line fail_index + 2 of the trace file: 1-based, behind the RESET); TLC decides."""
     for c in CLAIMS:
-        r = _validate([frag], off=(c,), mem="3g", timeout=300)
+        r = _validate([frag], off=(c,), at=fail_index + 2, mem="3g", timeout=300)
         if r["accepted"] or (r["fail_index"] is not None and r["fail_index"] > fail_index):
             return c
     return None
@@ -348,11 +363,17 @@ def _partition(frags, k):
     return [p for p in parts if p]
 
 
-def validate_all(rep, frags, label, jvms):
-    """-> list of (frag, result) for rejected partitions (first rejection of each partition)"""
+def validate_parts(frags, jvms):
+    """several TLC processes side by side; no reporting (may run in a helper thread)"""
     parts = _partition(frags, jvms)
     with cf.ThreadPoolExecutor(max_workers=len(parts) or 1) as ex:
         results = list(ex.map(_validate, parts))
+    return parts, results
+
+
+def validate_all(rep, frags, label, jvms, done=None):
+    """-> list of (frag, result) for rejected partitions (first rejection of each partition)"""
+    parts, results = done if done is not None else validate_parts(frags, jvms)
     rejected = []
     tot = {"events": 0, "states": 0, "generated": 0, "wall": 0.0}
     for part, r in zip(parts, results):
@@ -388,10 +409,135 @@ def report_rejection(rep, label, frag, r):
 
 
 # ----------------------------------------------------------------------------------------------------------------
+# generated programs (AsCore_Gen): the golden programs contain no unexpected error, no construct left open
+# ----------------------------------------------------------------------------------------------------------------
+def render(prog):
+    """abstract source lines [k, a, id] of AsCore_MC -> Z80 source text; data bytes = number of the source line"""
+    out = []
+    for st in prog:
+        k, a, i = st["k"], st["a"], st["id"]
+        if k == "EMIT":
+            out.append("\tdb\t" + ",".join([str(i)] * a))
+        elif k == "LAB":
+            out.append("L%d:\tdb\t%d" % (i, i))
+        elif k == "BAD":
+            out.append("\tbogus")
+        elif k == "UERR":
+            out.append('\terror\t"x"')
+        elif k == "UWARN":
+            out.append('\twarning\t"x"')
+        elif k == "IF":
+            out.append("\tif\t%d" % a)
+        elif k in ("ELSE", "ENDIF", "DEPHASE", "SAVE", "RESTORE", "ENDM", "EXITM"):
+            out.append("\t" + k.lower())
+        elif k in ("ORG", "PHASE", "REPT"):
+            out.append("\t%s\t%d" % (k.lower(), a))
+        elif k == "MACRO":
+            out.append("mm\tmacro")
+        elif k == "CALL":
+            out.append("\tmm")
+        else:
+            raise CheckError("AsCore_Gen printed an unknown statement %r" % (st,))
+    return "\n".join(out) + "\n"
+
+
+def gen_models(tier):
+    """TLC side of the generated part (may run in a helper thread): -> (cfgs, flat, macro family, simulation)"""
+    cfg = "AsCore_Gen.cfg" if tier == "quick" else "AsCore_Gen4.cfg"
+    cfgm = "AsCore_GenM.cfg" if tier == "quick" else "AsCore_GenM4.cfg"
+    mc = tlc.run("AsCore_Gen", cfg, workers=4, timeout=1500, mem="6g")
+    mcm = tlc.run("AsCore_Gen", cfgm, workers=4, timeout=1500, mem="6g")
+    nsim = 40 if tier == "quick" else 2500
+    sim = tlc.run("AsCore_Gen", "AsCore_Sim.cfg", workers=2 if tier == "quick" else 4, simulate=nsim, depth=70,
+                  timeout=900, mem="4g")
+    return (cfg, cfgm), mc, mcm, sim
+
+
+def generated(rep, bld, tier, models=None):
+    """(M)+(G)+(V) on the bounded family of AsCore_MC: TLC checks the forward model against StmtSucc and exports every
+    complete behaviour with the outcome it predicts; the programs are rendered, assembled with hooks, the outcome
+    is compared and the recorded executions are validated by AsCore_Trace like the golden ones."""
+    (cfg, cfgm), mc, mcm, sim = models if models is not None else gen_models(tier)
+    for what, r in (("AsCore_Gen(%s)" % cfg, mc), ("AsCore_Gen(%s)" % cfgm, mcm), ("AsCore_Gen simulate", sim)):
+        tlc.must(r, what)
+        if r.violation:
+            raise CheckError("the composed design violates its own invariants (%s): %s" % (what, r.violation[:600]))
+    rep.model("AsCore_Gen(%s)" % cfg, mc)
+    rep.model("AsCore_Gen(%s)" % cfgm, mcm)
+    behs = [b for (tag, b) in mc.printed if tag == "BEH"]
+    behm = [b for (tag, b) in mcm.printed if tag == "BEH"]
+    nall = len(behs) + len(behm)
+    if tier == "quick":
+        # flat family: every program of up to 2 lines, a seeded fifth of the 3-line programs; macro family: a seeded
+        # 40 % (thorough: one line more each; flat: all up to 3 lines + a seeded 35 % of the 4-line programs, macro: all)
+        r = rng("ascore-gen")
+        behs = [b for b in behs if len(b["prog"]) <= 2 or r.random() < 0.2]
+        behm = [b for b in behm if r.random() < 0.4]
+    else:
+        r = rng("ascore-gen")
+        behs = [b for b in behs if len(b["prog"]) <= 3 or r.random() < 0.35]
+    behs += behm
+    seen = set(json.dumps(b["prog"]) for b in behs)
+    for (tag, b) in sim.printed:
+        key = json.dumps(b["prog"])
+        if tag == "BEH" and key not in seen:
+            seen.add(key)
+            behs.append(b)
+    srcs = [render(b["prog"]) for b in behs]
+    outdir = tempfile.mkdtemp(prefix="ascoregen-", dir=scratch())
+    per = max(1, min(200, len(srcs) // (NCPU * 4) or 1))
+    chunks = [list(enumerate(srcs))[i:i + per] for i in range(0, len(srcs), per)]
+    with Phase("composed: replay %d generated programs" % len(srcs)):
+        with cf.ProcessPoolExecutor(max_workers=NCPU) as ex:
+            res = [o for part in ex.map(_program_job, [(bld.dir, bld.hooks, bld.flavour, c, outdir) for c in chunks])
+                   for o in part]
+    frags = []
+    nbad = 0
+    for o in res:
+        b, src = behs[o["idx"]], srcs[o["idx"]]
+        rep.evaluated()
+        rep.distinct("ascore:" + src, any(st["k"] not in ("EMIT", "LAB") for st in b["prog"]))
+        key = {"kind": "ascore-gen"}
+        if o["timeout"] or o["sig"] is not None or o["rc"] not in (0, 2):
+            rep.violation("assembler did not end normally (rc=%s signal=%s) on a program of the composed model"
+                          % (o["rc"], o["sig"]), case=b["prog"], files={"a.asm": src}, key=key)
+            nbad += 1
+            continue
+        clean = b["errs"] == 0
+        if (o["rc"] == 0) != clean:
+            rep.violation("composed model predicts %d error(s), the assembler ended with status %s (%s errors)"
+                          % (b["errs"], o["rc"], o["errs"]), case=b["prog"], files={"a.asm": src}, key=key)
+            nbad += 1
+        elif clean and o["image"] != b["image"]:
+            rep.violation("code file differs from the stream the composed model predicts: expected %s, file has %s"
+                          % (b["image"][:12], (o["image"] or [])[:12]), case=b["prog"], files={"a.asm": src}, key=key)
+            nbad += 1
+        elif o["errs"] is not None and (o["errs"], o["warns"]) != (b["errs"], b["warns"]):
+            rep.drift("generated program: model predicts %d errors / %d warnings, asl counted %s / %s: %r"
+                      % (b["errs"], b["warns"], o["errs"], o["warns"], src))
+            nbad += 1
+        if o["events"] is not None:
+            frags.append({"name": "gen#%d" % o["idx"], "text": o["events"], "n": o["n"], "src": src})
+    jvms = max(1, min(4, NCPU // 4)) if tier == "quick" else max(1, min(4, NCPU // 2))
+    with Phase("composed validation of %d generated executions" % len(frags)):
+        rejected, tot = validate_all(rep, frags, "generated program", jvms)
+    rep.part("AsCore_Gen(replay)", programs=len(srcs), complete_behaviours_of_the_model=nall,
+             outcome_mismatches=nbad,
+             events=tot["events"], accepted=not rejected, tlc_wall_s=tot["wall"])
+    if behs:
+        rep.sample({"ascore_program": behs[-1]["prog"], "rendered": srcs[-1],
+                    "predicted": {k: behs[-1][k] for k in ("errs", "warns", "image")}})
+    for frag, r in rejected:
+        report_rejection(rep, "generated program", frag, r)
+
+
+# ----------------------------------------------------------------------------------------------------------------
 def run(rep, bld, tier):
     if not bld.hooks:
         return
     t0 = time.time()
+    helper = cf.ThreadPoolExecutor(max_workers=2)
+    fmodels = helper.submit(gen_models, tier)          # TLC on the bounded model runs beside the corpus work
     outdir = tempfile.mkdtemp(prefix="ascore-", dir=scratch())
     tests = aslrun.corpus()
     jobs = [(bld.dir, bld.hooks, bld.flavour, t, outdir) for t in tests]
@@ -405,9 +551,16 @@ def run(rep, bld, tier):
         for k, v in x["classes"].items():
             classes[k] = classes.get(k, 0) + v
     jvms = max(1, min(4, NCPU // 2))
-    with Phase("composed validation (AsCore_Trace, %d events, %d TLC processes)"
-               % (sum(x["n"] for x in frags), jvms)):
-        rejected, tot = validate_all(rep, frags, "golden test", jvms)
+    t1 = time.time()
+    fcorpus = helper.submit(validate_parts, frags, jvms)   # ... and the corpus validation beside the generated part
+    try:
+        generated(rep, bld, tier, models=fmodels.result())
+    finally:
+        done = fcorpus.result()
+        helper.shutdown()
+    rejected, tot = validate_all(rep, frags, "golden test", jvms, done=done)
+    log("[phase] composed validation (AsCore_Trace, %d events, %d TLC processes): %.1fs (overlapped)"
+        % (tot["events"], jvms, tot["wall"]))
     total = (classes.get("named", 0) + classes.get("generic", 0)) or 1
     per_machine = {k.split(":", 1)[1]: round(v / total, 4) for k, v in classes.items() if k.startswith("machine:")}
     rep.part("AsCore_Trace(corpus)", events=tot["events"], executions=len(frags), accepted=not rejected,
